@@ -146,7 +146,7 @@ struct NikBoundedAd {
   }
 };
 
-template <class Q, class E>
+template <class Q, class E, bool DW = false>
 struct VyukovAd {
   using Elem = E;
   using T = typename E::type;
@@ -156,13 +156,19 @@ struct VyukovAd {
   static constexpr bool strong_lockfree = false;
   Q q;
   explicit VyukovAd(const QParams& p) : q((size_t)p.cap) {}
-  bool push(T& v, bool weak) { return weak ? q.try_push_weak(std::move(v)) : q.try_push_strong(std::move(v)); }
-  bool pop(T& out, int variant, bool weak) {
+  // DW = the queue was instantiated with policy::default_to_weak<true>: the unqualified operations (try_push / try_pop / pop) are
+  // the weak ones there and the strong ones otherwise; the explicitly named variants must behave the same under both policies.
+  bool push(T& v, bool weak) {
     if (weak)
-      return q.try_pop_weak(out);
-    if (variant == 0)
-      return q.try_pop_strong(out);
-    auto o = q.pop(); // default_to_weak = false
+      return DW ? q.try_push(std::move(v)) : q.try_push_weak(std::move(v));
+    return q.try_push_strong(std::move(v));
+  }
+  bool pop(T& out, int variant, bool weak) {
+    if (weak != DW || variant == 0)
+      return weak ? q.try_pop_weak(out) : q.try_pop_strong(out);
+    if (xrt::tid() & 1)
+      return q.try_pop(out); // default flavour
+    auto o = q.pop(); // default flavour
     if (!o.has_value())
       return false;
     out = std::move(*o);
@@ -727,6 +733,15 @@ template <class E>
 using KIB = xenium::kirsch_bounded_kfifo_queue<typename E::type>;
 
 template <class E>
+using VYUW = xenium::vyukov_bounded_queue<typename E::type, xp::default_to_weak<true>>;
+template <class E>
+void reg_vyuw(int64_t cap) {
+  QParams p;
+  p.cap = cap;
+  p.prop = "C05";
+  reg<VyukovAd<VYUW<E>, E, true>>(fmt("vyu_dw_c%d_%s", (int)cap, E::name), p);
+}
+template <class E>
 void reg_vyu(int64_t cap) {
   QParams p;
   p.cap = cap;
@@ -754,6 +769,8 @@ void register_all() {
   reg_vyu<ElemUptr>(4);
   reg_vyu<ElemRaw>(4);
   reg_vyu<ElemTok>(8);
+  reg_vyuw<ElemTok>(2);
+  reg_vyuw<ElemUptr>(4);
   reg_nib<ElemInt, 0>(1);
   reg_nib<ElemTok, 1>(2);
   reg_nib<ElemUptr, 0>(3);
